@@ -458,6 +458,65 @@ def rule_r9(facts, col, rule_id="C02.R9"):
             col.ok(rule_id, key, body.where(ins[0]), "tag loop left only on iterator exhaustion")
 
 
+def rule_r14(facts, col, rule_id="C02.R14"):
+    """every tag on a committed sample is stored: inside the loop of the commit body that stores tags, the only branch that
+    can take a tag back to the loop head without storing it is the `tag.pos() < n` test of R2 (a store made conditional on
+    anything else - what is already stored on that sample, the tag's key or value - silently drops tags the writer committed)"""
+    for body in facts.bodies:
+        if body.kind == "closure" or body_role(facts, body) != "commit":
+            continue
+        ins = [(bb, t) for b2, bb, t, kind in tag_map_calls(facts) if b2 is body and kind == "insert"]
+        if not ins:
+            continue
+        comp = scc_of(body, ins[0][0])
+        key = "%s:tag-loop:store" % body.q
+        if comp is None:
+            col.silent(rule_id, key, body.where(ins[0][0]), "tags not stored in an explicit loop of this body")
+            continue
+        heads = [b for b, t in body.calls_to("std::iter::Iterator::next") if b in comp]
+        stores = set()
+        for bb, t in ins:
+            if t["f"].get("name") in ("insert", "try_insert"):
+                stores.add(bb)
+        for bb, t in body.calls():
+            if bb in comp and any(q.endswith("Vec::<T, A>::push") or q.endswith("::push") or q.endswith("::push_back") or
+                                  q.endswith("::extend") for q in Body.callee_qs(t)):
+                stores.add(bb)
+        if not heads or not stores:
+            col.silent(rule_id, key, body.where(ins[0][0]), "loop head or storing call not visible in this body")
+            continue
+        bad = []
+        sw = {}
+        for u in sorted(comp):
+            tu = body.term(u)
+            if tu["k"] != "switch" or c01.from_debug_assert(tu.get("sp")):
+                continue
+            e = peel(switch_discr_expr(body, u), through_try=False)
+            while e.k == "un" and e.op == "Not":
+                e = peel(e.a, through_try=False)
+            # the one test that may send a tag back unstored: a comparison of the tag's position with n (R2 judges its sense)
+            sw[u] = (e, e.k == "bin" and e.op in ("Lt", "Le", "Ge", "Gt") and
+                     any(x.k == "call" and x.q == TAG_POS for x in walk(e)) and
+                     any(x.k == "param" and x.idx == 2 for x in walk(e)))
+        pos_tests = {u for u, (e, p) in sw.items() if p}
+        for u, (e, is_pos_test) in sw.items():
+            if is_pos_test:
+                continue
+            for v in set(body.succ[u]):
+                if v not in comp or v in stores:
+                    continue
+                # paths that reach the position test are that test's business: they are cut there
+                r = body.reachable(v, avoid=stores, edge_filter=lambda a, b: a not in pos_tests)
+                if v in heads or any(h in r for h in heads):
+                    bad.append((u, show(e)[:90]))
+        if bad:
+            col.bad(rule_id, key, body.where(bad[0][0]),
+                    "inside the loop that stores a commit's tags a branch other than the `tag.pos() < n` test leads back to the "
+                    "loop head without storing the tag (%s): a tag the writer committed on a delivered sample is dropped" % bad[0][1], {})
+        else:
+            col.ok(rule_id, key, body.where(ins[0][0]), "every tag that passes the position test reaches the storing call (%d store sites)" % len(stores))
+
+
 UNSTABLE_SORTS = {"sort_unstable", "sort_unstable_by", "sort_unstable_by_key", "select_nth_unstable", "select_nth_unstable_by",
                   "select_nth_unstable_by_key", "reverse", "swap", "rotate_left", "rotate_right", "dedup", "dedup_by_key", "dedup_by"}
 STABLE_SORTS = {"sort", "sort_by", "sort_by_key", "sort_by_cached_key"}
@@ -716,6 +775,8 @@ def run(ctx):
     rule_r5(facts, ctx)
     rule_r9(facts, ctx)
     ctx.floor("C02.R9", 1, "tag-storing loop of the commit body")
+    rule_r14(facts, ctx)
+    ctx.floor("C02.R14", 1, "tag-storing loop of the commit body: skip edges")
     rule_r10(facts0, ctx)
     ctx.floor("C02.R10", 1, "Buffer::read_buf")
     rule_r11(facts0, ctx)
